@@ -47,6 +47,9 @@ pub enum TIns {
     /// redefinition of an existing global at a different dimension, then a function whose
     /// body reads the global (every name refers to its innermost definition)
     Redefine { var: u16, dim: [i8; 3], seed: u32 },
+    /// a struct generic over two dimensions and a generic function that returns it with the
+    /// type arguments permuted (`GPair<B, A>`), instantiated at two dimensions
+    GenericStruct { dim: [i8; 3], seed: u32 },
 }
 
 pub fn tins_strategy() -> impl Strategy<Value = TIns> {
@@ -62,6 +65,7 @@ pub fn tins_strategy() -> impl Strategy<Value = TIns> {
         2 => (dim(), any::<u32>()).prop_map(|(dim, seed)| TIns::Print { dim, seed }),
         1 => (dim(), any::<u32>()).prop_map(|(dim, seed)| TIns::Assert { dim, seed }),
         2 => (any::<u16>(), dim(), any::<u32>()).prop_map(|(var, dim, seed)| TIns::Redefine { var, dim, seed }),
+        1 => (dim(), any::<u32>()).prop_map(|(dim, seed)| TIns::GenericStruct { dim, seed }),
     ]
 }
 
@@ -669,6 +673,37 @@ impl<'a> Gen<'a> {
                 let a = self.expr_inner(&v, &mut r, 1);
                 let b = self.site(a.clone());
                 vec![Stmt { text: format!("assert_eq({a}, {b})"), defines: vec![], dim: None, prints: 0 }]
+            }
+            TIns::GenericStruct { dim, seed } => {
+                let v = vec_of(*dim, 0);
+                let mut r = Rng(*seed as u64);
+                let mut w = self.random_vec(&mut r);
+                if w == v {
+                    w = w.mul(&DimVec::single("Time"));
+                }
+                let sname = self.fresh("GSt");
+                let fname = self.fresh("gsf");
+                let inst = self.fresh("s");
+                let (q1, q2) = (self.fresh("q"), self.fresh("q"));
+                let (ev, ew) = (self.expr_inner(&v, &mut r, 2), self.expr_inner(&w, &mut r, 2));
+                self.features.struct_or_list = true;
+                self.features.generic_instantiations += 2;
+                // three shapes of the generic function: swap, duplicate-first, rotate through a product
+                let (ret, body, d1, d2) = match r.below(3) {
+                    0 => (format!("{sname}<B, A>"), format!("{sname} {{ first: p.second, second: p.first }}"), w.clone(), v.clone()),
+                    1 => (format!("{sname}<B, B>"), format!("{sname} {{ first: p.second, second: p.second }}"), w.clone(), w.clone()),
+                    _ => (format!("{sname}<A * B, A>"), format!("{sname} {{ first: p.first * p.second, second: p.first }}"), v.mul(&w), v.clone()),
+                };
+                self.shapes.push((inst.clone(), Shape::Struct(vec![("first".into(), d1.clone()), ("second".into(), d2.clone())])));
+                self.vars.push((q1.clone(), d1.clone()));
+                self.vars.push((q2.clone(), d2.clone()));
+                vec![
+                    Stmt { text: format!("struct {sname}<A: Dim, B: Dim> {{ first: A, second: B }}"), defines: vec![(sname.clone(), None)], dim: None, prints: 0 },
+                    Stmt { text: format!("fn {fname}<A: Dim, B: Dim>(p: {sname}<A, B>) -> {ret} = {body}"), defines: vec![(fname.clone(), None)], dim: None, prints: 0 },
+                    Stmt { text: format!("let {inst} = {fname}({sname} {{ second: {ew}, first: {ev} }})"), defines: vec![(inst.clone(), None)], dim: None, prints: 0 },
+                    Stmt { text: format!("let {q1} = {inst}.first"), defines: vec![(q1, Some(d1.clone()))], dim: Some(d1), prints: 0 },
+                    Stmt { text: format!("let {q2} = {inst}.second"), defines: vec![(q2, Some(d2.clone()))], dim: Some(d2), prints: 0 },
+                ]
             }
             TIns::Redefine { var, dim, seed } => {
                 let globals: Vec<(String, DimVec)> = self.vars.iter().filter(|(n, _)| n.starts_with("q_")).cloned().collect();
